@@ -5,8 +5,9 @@ namespace Sema.C14
 variable {N K : Type} [DecidableEq N] [DecidableEq K]
 
 /-- the cluster before the synchronisation: every record / shard file that exists is an original, every
-original exists, a shard is on one node only, nothing is in flight -/
-structure Init (ro fo : K → Option Content) (s : St N K) : Prop where
+original exists, a shard is on one node only, nothing is in flight, and every node that holds
+something is started with the new list -/
+structure Init (cfg : Cfg N K) (ro fo : K → Option Content) (s : St N K) : Prop where
   r1 : ∀ n k v, s.recs n k = some v → ro k = some v
   r2 : ∀ k v, ro k = some v → ∃ n, s.recs n k = some v
   f1 : ∀ n k c, s.files n k = some c → fo k = some c
@@ -14,12 +15,25 @@ structure Init (ro fo : K → Option Content) (s : St N K) : Prop where
   f4 : ∀ n n' k, (s.files n k).isSome → (s.files n' k).isSome → n = n'
   v1 : ∀ n k, s.rconf n k = false
   v2 : ∀ n k, s.fph n k = .idle
+  up : ∀ n k, (s.recs n k).isSome ∨ (s.files n k).isSome → cfg.up n = true
 
 omit [DecidableEq N] [DecidableEq K] in
-theorem Init.inv {ro fo} {s : St N K} (cfg : Cfg N K) (h : Init ro fo s) : Inv cfg ro fo s :=
-  ⟨h.r1, h.r2, fun n k hc => by simp [h.v1 n k] at hc, fun n k c hc _ => h.f1 n k c hc, h.f2,
-   fun n k hc => by simp [h.v2 n k] at hc, fun n n' k _ _ a b => h.f4 n n' k a b,
-   fun n k hs => by obtain ⟨c, hc⟩ := Option.isSome_iff_exists.mp hs; simp [h.f1 n k c hc]⟩
+theorem Init.inv {cfg : Cfg N K} {ro fo} {s : St N K} (h : Init cfg ro fo s) : Inv cfg ro fo s :=
+  ⟨fun n k v _ _ hv => h.r1 n k v hv,
+   fun k v hro => by
+     obtain ⟨n, hn⟩ := h.r2 k v hro
+     exact ⟨n, h.up n k (Or.inl (by rw [hn]; rfl)), hn⟩,
+   fun n k hc => by simp [h.v1 n k] at hc,
+   fun n k c _ _ hc => h.f1 n k c hc,
+   fun k c hfo => by
+     obtain ⟨n, hn⟩ := h.f2 k c hfo
+     exact ⟨n, h.up n k (Or.inr (by rw [hn]; rfl)), hn⟩,
+   fun n k hc => by simp [h.v2 n k] at hc,
+   fun n n' k _ _ _ _ a b => h.f4 n n' k a b⟩
+
+omit [DecidableEq N] [DecidableEq K] in
+theorem Init.strict {cfg : Cfg N K} {ro fo} {s : St N K} (h : Init cfg ro fo s) : Strict ro fo s :=
+  ⟨h.r1, fun n k hs => by obtain ⟨c, hc⟩ := Option.isSome_iff_exists.mp hs; simp [h.f1 n k c hc]⟩
 
 /-- every record and shard file is exactly at its routing owner, byte-identical, and nowhere else -/
 def Placed (cfg : Cfg N K) (ro fo : K → Option Content) (s : St N K) : Prop :=
@@ -29,11 +43,14 @@ def Placed (cfg : Cfg N K) (ro fo : K → Option Content) (s : St N K) : Prop :=
 /-- "a later synchronisation completes the move": from any state reachable by interrupted rounds, one
 failure-free round (the nodes of `order` run `Sync` one after the other, in any order) puts
 everything at its owner and no `Sync` fails.  Side conditions: shard files are non-empty (bbolt
-files are); the server list / key lists cover what exists; every node that holds something runs. -/
+files are); the server list / key lists cover what exists and every member of the list runs; every
+node that holds something runs. -/
 def Converges (cfg : Cfg N K) : Prop :=
   ∀ (ro fo : K → Option Content) (nodes : List N) (rkeys fkeys : List K) (order : List N) (s0 s : St N K),
-    (∀ k c, fo k = some c → c ≠ []) → Covers cfg ro fo nodes rkeys fkeys →
-    Init ro fo s0 → Reachable cfg s0 s →
+    (∀ k c, fo k = some c → c ≠ []) → (∀ k, (fo k).isSome → cfg.up (cfg.fowner k) = true) →
+    Covers cfg ro fo nodes rkeys fkeys →
+    Init cfg ro fo s0 → Reachable cfg s0 s →
+    (∀ n ∈ order, cfg.up n = true) →
     (∀ n k, (s.recs n k).isSome ∨ (s.files n k).isSome → n ∈ order) →
     Placed cfg ro fo (round cfg nodes rkeys fkeys order s) ∧
       ∀ n ∈ order, (round cfg nodes rkeys fkeys order s).failed n = false
